@@ -1,7 +1,8 @@
 //! C18 (TLS + authorization through the C ABI): a C-ABI TLS server with a C authorization handler, and the
 //! C-ABI TLS client, against their Rust API twins. Exercises the Authorization, MinTlsVersion and
 //! CertificateMode conversions and the pass-through of unit id, range / index and role.
-//! args:       <repo path>
+//! args:       <repo path> <verification certs dir>
+//! or:         seq <server> <policy allow|deny|byrole> <unit> <role>:<op>:<start>:<n>[,...]   several sessions, one server
 //! input line: <server> <client> <op> <decision> <unit> <start> <n>
 //!   server   = ffi | rust      (rodbus_server_create_tls_with_authz vs spawn_tls_server_task_with_authz)
 //!   client   = ffi | rust      (rodbus_client_channel_create_tls vs spawn_tls_client_task); ffi supports op rh only
@@ -21,7 +22,13 @@ use std::time::{Duration, Instant};
 #[derive(Default)]
 struct AuthLog {
     allow: bool,
+    /// role-sensitive policy: `operator` may do everything, `viewer` may read, anybody else nothing
+    by_role: bool,
     calls: Vec<String>,
+}
+
+fn by_role_allows(label: &str, role: &str) -> bool {
+    role == "operator" || (role == "viewer" && label.starts_with("read_"))
 }
 
 fn role_of(p: *const c_char) -> String {
@@ -33,7 +40,7 @@ macro_rules! range_cb {
         extern "C" fn $name(unit: u8, range: ffi::AddressRange, role: *const c_char, ctx: *mut c_void) -> c_int {
             let mut l = unsafe { ctx_ref::<AuthLog>(ctx) }.lock().unwrap();
             l.calls.push(format!("{}:{}:{},{}:{}", $label, unit, range.start, range.count, role_of(role)));
-            if l.allow {
+            if (l.by_role && by_role_allows($label, &role_of(role))) || (!l.by_role && l.allow) {
                 ffi::Authorization::Allow.into()
             } else {
                 ffi::Authorization::Deny.into()
@@ -46,7 +53,7 @@ macro_rules! index_cb {
         extern "C" fn $name(unit: u8, index: u16, role: *const c_char, ctx: *mut c_void) -> c_int {
             let mut l = unsafe { ctx_ref::<AuthLog>(ctx) }.lock().unwrap();
             l.calls.push(format!("{}:{}:{}:{}", $label, unit, index, role_of(role)));
-            if l.allow {
+            if (l.by_role && by_role_allows($label, &role_of(role))) || (!l.by_role && l.allow) {
                 ffi::Authorization::Allow.into()
             } else {
                 ffi::Authorization::Deny.into()
@@ -65,12 +72,15 @@ range_cb!(a_wmr, "write_multiple_registers");
 
 struct RustAuth {
     allow: bool,
+    by_role: bool,
     log: Arc<Mutex<Vec<String>>>,
 }
 impl RustAuth {
     fn decide(&self, what: String) -> Authorization {
+        let label = what.split(':').next().unwrap_or("").to_string();
+        let role = what.rsplit(':').next().unwrap_or("").to_string();
         self.log.lock().unwrap().push(what);
-        if self.allow {
+        if (self.by_role && by_role_allows(&label, &role)) || (!self.by_role && self.allow) {
             Authorization::Allow
         } else {
             Authorization::Deny
@@ -151,11 +161,16 @@ fn show<T, F: Fn(&T) -> String>(r: Result<T, RequestError>, f: F) -> String {
 
 async fn rust_client(repo: &str, port: u16, op: &str, unit: u8, start: u16, n: u16) -> String {
     let d = format!("{repo}/certs/ca_chain");
+    rust_client_with(&format!("{d}/ca_cert.pem"), &format!("{d}/client_cert.pem"), &format!("{d}/client_key.pem"), port, op, unit, start, n).await
+}
+
+#[allow(clippy::too_many_arguments)]
+async fn rust_client_with(ca: &str, cert: &str, key: &str, port: u16, op: &str, unit: u8, start: u16, n: u16) -> String {
     let tls = match TlsClientConfig::full_pki(
         Some("test.com".to_string()),
-        std::path::Path::new(&format!("{d}/ca_cert.pem")),
-        std::path::Path::new(&format!("{d}/client_cert.pem")),
-        std::path::Path::new(&format!("{d}/client_key.pem")),
+        std::path::Path::new(ca),
+        std::path::Path::new(cert),
+        std::path::Path::new(key),
         None,
         MinTlsVersion::V1_2,
     ) {
@@ -301,14 +316,138 @@ fn ffi_client(ffi_rt: &FfiRuntime, paths: &TlsPaths, port: u16, unit: u8, start:
 struct Env {
     rt: tokio::runtime::Runtime,
     ffi_rt: FfiRuntime,
+    /// directory holding the verification's own certificate sets (ca2, ss)
+    certs: String,
     repo: String,
     paths: TlsPaths,
 }
 unsafe impl Send for Env {}
 unsafe impl Sync for Env {}
 
+/// seq <server> <policy> <unit> <role>:<op>:<start>:<n>[,...]: ONE TLS+authz server, several client sessions one after
+/// the other, each with the certificate of its role (material of <certs>/ca2: operator, viewer, mixed = "Plant-Operator.v2")
+fn sequence(env: &Env, p: &[&str]) -> String {
+    if p.len() != 5 {
+        return "FAIL:syntax".into();
+    }
+    let (server, policy, unit) = (p[1], p[2], p[3].parse::<u8>().unwrap());
+    let (allow, by_role) = (policy == "allow", policy == "byrole");
+    let d = format!("{}/ca2", env.certs);
+    let sessions: Vec<Vec<&str>> = p[4].split(',').map(|x| x.split(':').collect()).collect();
+    let cert_of = |role: &str| match role {
+        "operator" => ("client_cert.pem", "client_key.pem"),
+        "viewer" => ("client_otherrole_cert.pem", "client_otherrole_key.pem"),
+        _ => ("client_mixedrole_cert.pem", "client_mixedrole_key.pem"),
+    };
+    let run_sessions = |port: u16, calls: &dyn Fn() -> Vec<String>| -> String {
+        let mut out = Vec::new();
+        for sess in &sessions {
+            let (role, op, start, n) = (sess[0], sess[1], sess[2].parse::<u16>().unwrap(), sess[3].parse::<u16>().unwrap());
+            let (cert, key) = cert_of(role);
+            let before = calls().len();
+            let r = env.rt.block_on(rust_client_with(&format!("{d}/ca_cert.pem"), &format!("{d}/{cert}"), &format!("{d}/{key}"), port, op, unit, start, n));
+            let after = calls();
+            out.push(format!("client={r} auth={} x{}", after.last().cloned().unwrap_or_else(|| "-".into()), after.len() - before));
+        }
+        out.join(";")
+    };
+    for _ in 0..8 {
+        let port = free_port("127.0.0.1");
+        if server == "ffi" {
+            let (log, ctx) = leak_ctx(AuthLog { allow, by_role, calls: Vec::new() });
+            let handler = ffi::AuthorizationHandler {
+                read_coils: Some(a_rc),
+                read_discrete_inputs: Some(a_rd),
+                read_holding_registers: Some(a_rh),
+                read_input_registers: Some(a_ri),
+                write_single_coil: Some(a_wc),
+                write_single_register: Some(a_wr),
+                write_multiple_coils: Some(a_wmc),
+                write_multiple_registers: Some(a_wmr),
+                on_destroy: Some(noop_destroy),
+                ctx,
+            };
+            let (ca, sc, sk, empty) = (cstr(&format!("{d}/ca_cert.pem")), cstr(&format!("{d}/server_cert.pem")), cstr(&format!("{d}/server_key.pem")), cstr(""));
+            let cfg = ffi::TlsServerConfig {
+                peer_cert_path: ca.as_ptr(),
+                local_cert_path: sc.as_ptr(),
+                private_key_path: sk.as_ptr(),
+                password: empty.as_ptr(),
+                min_tls_version: ffi::MinTlsVersion::V12.into(),
+                certificate_mode: ffi::CertificateMode::AuthorityBased.into(),
+            };
+            unsafe {
+                let map = ffi::rodbus_device_map_create();
+                extern "C" fn init(db: *mut rodbus_ffi::Database, _ctx: *mut c_void) {
+                    unsafe {
+                        for i in 0..10u16 {
+                            ffi::rodbus_database_add_coil(db, i, false);
+                            ffi::rodbus_database_add_discrete_input(db, i, false);
+                            ffi::rodbus_database_add_holding_register(db, i, i);
+                            ffi::rodbus_database_add_input_register(db, i, i);
+                        }
+                    }
+                }
+                ffi::rodbus_device_map_add_endpoint(
+                    map,
+                    unit,
+                    accepting_write_handler(),
+                    ffi::DatabaseCallback {
+                        callback: Some(init),
+                        on_destroy: Some(noop_destroy),
+                        ctx: std::ptr::null_mut(),
+                    },
+                );
+                let filter = ffi::rodbus_address_filter_any();
+                let ip = cstr("127.0.0.1");
+                let mut srv: *mut rodbus_ffi::Server = std::ptr::null_mut();
+                let rc = ffi::rodbus_server_create_tls_with_authz(env.ffi_rt.0, ip.as_ptr(), port, filter, 8, map, cfg, handler, decode_nothing(), &mut srv);
+                ffi::rodbus_device_map_destroy(map);
+                ffi::rodbus_address_filter_destroy(filter);
+                if rc != 0 {
+                    if rc == ffi::ParamError::ServerBindError as i32 {
+                        continue;
+                    }
+                    return format!("FAIL:server_create:{}", param_error_name(rc));
+                }
+                let r = run_sessions(port, &|| log.lock().unwrap().calls.clone());
+                ffi::rodbus_server_destroy(srv);
+                return r;
+            }
+        } else {
+            let log = Arc::new(Mutex::new(Vec::new()));
+            let auth: Arc<dyn AuthorizationHandler> = Arc::new(RustAuth { allow, by_role, log: log.clone() });
+            let map = ServerHandlerMap::single(UnitId::new(unit), TenPoints.wrap());
+            let addr = SocketAddr::new(IpAddr::from([127, 0, 0, 1]), port);
+            let cfg = match rodbus::server::TlsServerConfig::new(
+                std::path::Path::new(&format!("{d}/ca_cert.pem")),
+                std::path::Path::new(&format!("{d}/server_cert.pem")),
+                std::path::Path::new(&format!("{d}/server_key.pem")),
+                None,
+                rodbus::server::MinTlsVersion::V1_2,
+                rodbus::server::CertificateMode::AuthorityBased,
+            ) {
+                Ok(c) => c,
+                Err(e) => return format!("FAIL:tls config {e}"),
+            };
+            match env.rt.block_on(spawn_tls_server_task_with_authz(8, addr, map, auth, cfg, AddressFilter::Any, DecodeLevel::nothing())) {
+                Ok(handle) => {
+                    let r = run_sessions(port, &|| log.lock().unwrap().clone());
+                    drop(handle);
+                    return r;
+                }
+                Err(_) => continue,
+            }
+        }
+    }
+    "FAIL:bind".into()
+}
+
 fn case(env: &Env, line: &str) -> String {
     let p: Vec<&str> = line.split_whitespace().collect();
+    if p.first() == Some(&"seq") {
+        return sequence(env, &p);
+    }
     if p.len() != 7 {
         return "FAIL:syntax".into();
     }
@@ -325,7 +464,7 @@ fn case(env: &Env, line: &str) -> String {
     for _ in 0..8 {
         let port = free_port("127.0.0.1");
         if server == "ffi" {
-            let (log, ctx) = leak_ctx(AuthLog { allow, calls: Vec::new() });
+            let (log, ctx) = leak_ctx(AuthLog { allow, by_role: false, calls: Vec::new() });
             let set = decision != "unset";
             let handler = ffi::AuthorizationHandler {
                 read_coils: if set { Some(a_rc) } else { None },
@@ -392,7 +531,7 @@ fn case(env: &Env, line: &str) -> String {
             }
         } else {
             let log = Arc::new(Mutex::new(Vec::new()));
-            let auth: Arc<dyn AuthorizationHandler> = Arc::new(RustAuth { allow, log: log.clone() });
+            let auth: Arc<dyn AuthorizationHandler> = Arc::new(RustAuth { allow, by_role: false, log: log.clone() });
             let map = ServerHandlerMap::single(UnitId::new(unit), TenPoints.wrap());
             let addr = SocketAddr::new(IpAddr::from([127, 0, 0, 1]), port);
             match env.rt.block_on(spawn_tls_server_task_with_authz(4, addr, map, auth, rust_tls_server_config(&env.repo), AddressFilter::Any, DecodeLevel::nothing())) {
@@ -418,6 +557,7 @@ pub fn main(args: &[String]) -> i32 {
         rt: tokio::runtime::Builder::new_multi_thread().worker_threads(6).enable_all().build().unwrap(),
         ffi_rt: ffi_runtime(4),
         paths: tls_paths(&repo),
+        certs: args.get(1).cloned().unwrap_or_else(|| "/verif/certs".to_string()),
         repo,
     });
     let lines: Arc<Vec<String>> = Arc::new(lines_in);
